@@ -1,4 +1,138 @@
-import AITB.Model.Trie
+/-
+  AITB.Props.C20 — property C20 "Rule indexes return exactly the matching entries".
+  Main theorems about the models of Trie / FasterTrie / FilterMap (AITB.Model.Trie), for every factor
+  space, every history, every query.  Helper layers: C20a (visits, cells), C20b (invariant), C20c (queries).
+  Core Lean only; no Mathlib import is needed.
+-/
+import AITB.Props.C20c
 import AITB.Gen.C20
 namespace AITB.Trie
+
+/-! ### Histories -/
+
+inductive Op where
+  | ins (pf : PF)
+  | era (id : Nat)
+  | erp (id : Nat) (pf : PF)
+
+/-- specification side: stored entries and the next id -/
+def specStep (s : Spec × Nat) : Op → Spec × Nat
+  | .ins pf => (specInsert s.1 s.2 pf, s.2 + 1)
+  | .era id => (specErase s.1 id, s.2)
+  | .erp id _ => (specErase s.1 id, s.2)
+
+def specRun (s : Spec × Nat) (ops : List Op) : Spec × Nat := ops.foldl specStep s
+
+/-- model side (`tailGuard` as in the source); `none` = undefined behaviour was reached -/
+def step (tailGuard : Bool) (st : Option T) : Op → Option T
+  | .ins pf => st.map (fun t => (t.insert pf).1)
+  | .era id => st.map (fun t => t.erase id)
+  | .erp id pf => st.bind (fun t => t.erasePF tailGuard id pf)
+
+def run (tailGuard : Bool) (t : T) (ops : List Op) : Option T := ops.foldl (step tailGuard) (some t)
+
+/-- documented preconditions of one call: keys are valid partial assignments; `erase(id, key)` is
+    given the key the id was stored with — or any key if the id is not stored (stale / never issued) -/
+def OpOK (F : List Nat) (es : Spec) : Op → Prop
+  | .ins pf => ValidPF F pf
+  | .era _ => True
+  | .erp id pf => ValidPF F pf ∧ ∀ e, (id, e) ∈ es → e = pf
+
+def HistOK (F : List Nat) : Spec × Nat → List Op → Prop
+  | _, [] => True
+  | s, op :: ops => OpOK F s.1 op ∧ HistOK F (specStep s op) ops
+
+theorem run_RI (F : List Nat) (ops : List Op) (t : T) (es : Spec) (h : RI t es) (hF : t.F = F)
+    (hok : HistOK F (es, t.counter) ops) :
+    ∃ t', run true t ops = some t' ∧ RI t' (specRun (es, t.counter) ops).1 ∧ t'.F = F ∧
+      t'.counter = (specRun (es, t.counter) ops).2 := by
+  induction ops generalizing t es with
+  | nil => exact ⟨t, rfl, h, hF, rfl⟩
+  | cons op ops ih =>
+    obtain ⟨hop, hrest⟩ := hok
+    cases op with
+    | ins pf =>
+      have hv : ValidPF t.F pf := by rw [hF]; exact hop
+      obtain ⟨_, hF', hC', hR', _⟩ := insert_cells t pf h.shape hv
+      have h' := RI_insert h hv
+      rw [hR'] at h'
+      have := ih (t.insert pf).1 _ h' (by rw [hF', hF]) (by rw [hC']; exact hrest)
+      rw [hC'] at this
+      exact this
+    | era id =>
+      exact ih (t.erase id) _ (RI_erase h id) hF hrest
+    | erp id pf =>
+      have hv : ValidPF t.F pf := by rw [hF]; exact hop.1
+      obtain ⟨t', he, h'⟩ := RI_erasePF h id hv hop.2
+      obtain ⟨_, he2, hF', hC', _, _⟩ := erasePF_cells t id pf h.shape hv
+      rw [he] at he2; cases he2
+      have := ih t' _ h' (by rw [hF', hF]) (by rw [hC']; exact hrest)
+      rw [hC'] at this
+      obtain ⟨t'', hr, rest⟩ := this
+      refine ⟨t'', ?_, rest⟩
+      simp only [run, List.foldl_cons, step, Option.bind_some, he]
+      exact hr
+
+theorem prefixPF_valid (F : List Nat) (f : List Nat) (off : Nat) (hlen : off + f.length ≤ F.length)
+    (hv : ∀ j, j < f.length → f.getD j 0 < F.getD (off + j) 0) : ValidQ F (prefixPF off f) := by
+  induction f generalizing off with
+  | nil => intro kv hkv; cases hkv
+  | cons v vs ih =>
+    intro kv hkv
+    simp only [prefixPF, List.mem_cons] at hkv
+    simp only [List.length_cons] at hlen
+    rcases hkv with rfl | hkv
+    · exact ⟨by simp only; omega, by simpa using hv 0 (by simp)⟩
+    · refine ih (off + 1) (by omega) (fun j hj => ?_) kv hkv
+      have := hv (j + 1) (by simp only [List.length_cons]; omega)
+      simp only [List.getD_cons_succ] at this
+      rw [show off + 1 + j = off + (j + 1) by omega]
+      exact this
+
+/-- **C20, Trie** (`trie_refines_spec`).  For every factor space with ≥ 2 factors, every history of
+    insert / erase(id) / erase(id, key) calls within the documented preconditions (stale and
+    never-issued ids included), the model with the end-guarded `erase(id,key)` tail loop never reaches
+    undefined behaviour, its state satisfies the representation invariant w.r.t. the specification's
+    entry list, and every query returns *exactly* the specification's answer:
+    * `filter` (any valid non-empty partial assignment, keys in any order) = ascending ids of the stored
+      entries compatible with it; `filter(Factors, offset)` likewise;
+    * `refine` of an ascending id list = its members whose stored entry is compatible;
+    * with the loops of `size`/`getAllIds` bounded by the chosen factor's own list count:
+      `size` = number of stored entries, `getAllIds` (empty query) = all stored ids. -/
+theorem trie_refines_spec (F : List Nat) (t0 : T) (hmk : T.mk? F = some t0) (ops : List Op)
+    (hok : HistOK F ([], 0) ops) :
+    ∃ t, run true t0 ops = some t ∧ RI t (specRun ([], 0) ops).1 ∧
+      (∀ fb q, ValidQ F q → q ≠ [] → t.filter fb q = some (specFilter (specRun ([], 0) ops).1 q)) ∧
+      (∀ fb f off, f ≠ [] → off + f.length ≤ F.length → (∀ j, j < f.length → f.getD j 0 < F.getD (off + j) 0) →
+          t.filterF fb f off = some (specFilter (specRun ([], 0) ops).1 (prefixPF off f))) ∧
+      (∀ ids q, ids.Pairwise (· < ·) → ValidQ F q → t.refine ids q = specRefine (specRun ([], 0) ops).1 ids q) ∧
+      t.size false = some (specRun ([], 0) ops).1.length ∧
+      t.getAllIds false = some (specIds (specRun ([], 0) ops).1) ∧
+      (∀ q, q = [] → t.filter false q = some (specFilter (specRun ([], 0) ops).1 q)) := by
+  have h0 : RI t0 [] := RI_mk hmk
+  have hF0 : t0.F = F ∧ t0.counter = 0 ∧ 2 ≤ F.length := by
+    unfold T.mk? at hmk
+    split at hmk
+    · cases hmk
+    · cases hmk; exact ⟨rfl, rfl, by omega⟩
+  obtain ⟨t, hr, hRI, hF, _⟩ := run_RI F ops t0 [] h0 hF0.1 (by rw [hF0.2.1]; exact hok)
+  rw [hF0.2.1] at hRI
+  have hne : t.F ≠ [] := by rw [hF]; intro e; rw [e] at hF0; simp at hF0
+  refine ⟨t, hr, hRI, ?_, ?_, ?_, size_spec hRI hne, getAllIds_spec hRI hne, ?_⟩
+  · intro fb q hq hqne
+    exact filter_spec hRI fb q (by rw [hF]; exact hq) hqne
+  · intro fb f off hfne hlen hv
+    have hq := prefixPF_valid F f off hlen hv
+    have : prefixPF off f ≠ [] := by cases f with | nil => exact absurd rfl hfne | cons _ _ => simp [prefixPF]
+    exact filter_spec hRI fb _ (by rw [hF]; exact hq) this
+  · intro ids q hs hq
+    exact refine_spec hRI ids hs q (by rw [hF]; exact hq)
+  · intro q hq
+    subst hq
+    have : specFilter (specRun ([], 0) ops).1 [] = specIds (specRun ([], 0) ops).1 := by
+      simp only [specFilter, specIds, compatB, List.all_nil]
+      rw [List.filter_eq_self.mpr (fun _ _ => rfl)]
+    rw [this]
+    simpa [T.filter] using getAllIds_spec hRI hne
+
 end AITB.Trie
